@@ -71,16 +71,17 @@ RC_TRAPS = [
     ('Trap_NestedOnly', ('p1', 'p2'), ()),
     ('Trap_KidWhileOtherExited', ('p1', 'p2'), ('k1',)),
     ('Trap_SelfStore', ('p1',), ()),
+    ('Trap_Rewrapped', ('p1', 'p2'), ()),
 ]
 
 
-def rc_cfg(maxid, invariants=(), properties=(), *, spec='Spec', inherit=True, exitrel=True, selfstore=True,
+def rc_cfg(maxid, invariants=(), properties=(), *, spec='Spec', inherit=True, exitrel=True, selfstore=True, rewrap=True,
            procs=('p1', 'p2'), kids=('k1',), conts=('c',), blocks=('m',), view=True, constraint=None,
            postcondition=None):
     return tlc.cfg_text(spec=spec,
                         constants=dict(Procs=set(procs), Kids=set(kids), Containers=set(conts), Blocks=set(blocks),
                                        MaxId=maxid, AllowSelfStore=selfstore, InheritOwnsRef=inherit,
-                                       ExitReleases=exitrel),
+                                       ExitReleases=exitrel, RewrapKeepsCount=rewrap),
                         invariants=invariants, properties=properties, deadlock=False,
                         view='view' if view else None, constraint=constraint, postcondition=postcondition)
 
@@ -141,6 +142,9 @@ def rc_tlc_phase(ck, thorough):
                               workers=W),
         lambda c: c.sensitive('proxies still referenced at process exit are never released (D15b)', 'RefCount',
                               rc_cfg(5, ['Count'], exitrel=False), 'invariant', 'Count', workers=W),
+        lambda c: c.sensitive('create() resets the count of an object that is hosted already (managed() of the same object '
+                              'twice): premature destruction', 'RefCount', rc_cfg(6, ['Count'], rewrap=False), 'invariant',
+                              'Count', workers=W),
     ]
     n_fixed = len(tasks)
     probes = (('InheritOwnsRef', {'inherit': False}), ('ExitReleases', {'exitrel': False}))
